@@ -58,6 +58,8 @@ type UpReply struct {
 	Bytes  int
 	// Arrival is the arrival number of the query this reply answers (selects the answer spec).
 	Arrival int
+	// SentID is the transaction id the reply carried on the wire.
+	SentID uint16
 	// QueryAt is when the query reached the server.
 	QueryAt time.Duration
 	ECS     string
@@ -402,6 +404,18 @@ func (u *UpServer) serveHTTP(w http.ResponseWriter, r *http.Request) {
 	var once sync.Once
 	finish := func() { once.Do(func() { close(done) }) }
 	cid := 0
+	// the response writer must not be touched once the handler has returned
+	// (the client went away); hmu/gone guard the late replies.
+	var hmu sync.Mutex
+	gone := false
+	defer func() { hmu.Lock(); gone = true; hmu.Unlock() }()
+	guarded := func(f func()) {
+		hmu.Lock()
+		defer hmu.Unlock()
+		if !gone {
+			f()
+		}
+	}
 	hij := func() net.Conn {
 		if h, ok := w.(http.Hijacker); ok {
 			c, _, err := h.Hijack()
@@ -413,27 +427,37 @@ func (u *UpServer) serveHTTP(w http.ResponseWriter, r *http.Request) {
 	}
 	ctl := connCtl{
 		fin: func() {
-			if c := hij(); c != nil {
-				c.Close()
-			}
+			guarded(func() {
+				if c := hij(); c != nil {
+					c.Close()
+				}
+			})
 			finish()
 		},
 		rst: func() {
-			if c := hij(); c != nil {
-				if tc, ok := c.(*tls.Conn); ok {
-					c = tc.NetConn()
+			guarded(func() {
+				if c := hij(); c != nil {
+					if tc, ok := c.(*tls.Conn); ok {
+						c = tc.NetConn()
+					}
+					if sc, ok := c.(*vnet.StreamConn); ok {
+						sc.Reset()
+					} else {
+						c.Close()
+					}
 				}
-				if sc, ok := c.(*vnet.StreamConn); ok {
-					sc.Reset()
-				} else {
-					c.Close()
-				}
-			}
+			})
 			finish()
 		},
 		raw: func(p []byte) {
-			w.Header().Set("Content-Type", "application/dns-message")
-			w.Write(p)
+			guarded(func() {
+				if p == nil {
+					w.WriteHeader(500)
+					return
+				}
+				w.Header().Set("Content-Type", "application/dns-message")
+				w.Write(p)
+			})
 			finish()
 		},
 	}
@@ -445,8 +469,10 @@ func (u *UpServer) serveHTTP(w http.ResponseWriter, r *http.Request) {
 		proto += "2"
 	}
 	handled := u.handle(b, proto, cid, qc, func(p []byte) {
-		w.Header().Set("Content-Type", "application/dns-message")
-		w.Write(p)
+		guarded(func() {
+			w.Header().Set("Content-Type", "application/dns-message")
+			w.Write(p)
+		})
 		finish()
 	}, ctl)
 	if !handled {
@@ -583,9 +609,10 @@ func (u *UpServer) handle(b []byte, proto string, conn int, qc qctx, reply func(
 		}
 		return refdns.Pack(r, PackOptsFor(ans.Compress)), serial, key
 	}
+	sentID := q.WireID
 	logReply := func(kind string, serial int, key string, n int) {
 		u.mu.Lock()
-		u.Replies = append(u.Replies, UpReply{At: s.Now(), Up: u.Spec.Tag, Conn: conn, WireID: q.WireID, Token: q.Token, Serial: serial, Kind: kind, Key: key, Bytes: n, Arrival: q.Arrival, QueryAt: q.At, ECS: q.ECS})
+		u.Replies = append(u.Replies, UpReply{At: s.Now(), Up: u.Spec.Tag, Conn: conn, WireID: q.WireID, Token: q.Token, Serial: serial, Kind: kind, Key: key, Bytes: n, Arrival: q.Arrival, QueryAt: q.At, ECS: q.ECS, SentID: sentID})
 		u.mu.Unlock()
 		s.Logf("up_reply", "%s conn=%d id=%d tok=%s kind=%s ser=%d", u.Spec.Tag, conn, q.WireID, q.Token, kind, serial)
 	}
@@ -651,7 +678,8 @@ func (u *UpServer) handle(b []byte, proto string, conn int, qc qctx, reply func(
 			done()
 		case "wrong_id":
 			b, ser, key := mkReply()
-			binary.BigEndian.PutUint16(b, q.WireID+uint16(1+act.Arg))
+			sentID = q.WireID + uint16(1+act.Arg)
+			binary.BigEndian.PutUint16(b, sentID)
 			logReply("wrong_id", ser, key, len(b))
 			s.Fault("up_wrong_id")
 			reply(b)
